@@ -859,8 +859,11 @@ def roundtrip(rec, build, cfg_name, label, replay_args, note=""):
     data = serialize(imsc_writer.from_model(doc, cfg))
   except Exception as e:  # pylint: disable=broad-except
     return fail("writer-raises", type(e).__name__, C_WRITER, f"imsc.writer.from_model raised {e!r}")
-  text = data.decode("utf-8")
-  root = et.fromstring(data)
+  text = data.decode("utf-8", "replace")
+  try:
+    root = et.fromstring(data)
+  except et.ParseError as e:
+    return fail("xml", "not-well-formed", C_XML, f"the written document is not well-formed XML: {e}", observed=text[:1500])
   # 2. structure of the XML
   rec.evaluated(C_XML, fpk)
   probs = S.xml_structure_problems(doc, root)
@@ -1002,6 +1005,16 @@ def time_job(job):
 # jobs
 
 
+def guarded(rec, build, cfg, label, replay_args, note=""):
+  """an exception of the harness itself is a checker error, never a verdict"""
+  try:
+    return roundtrip(rec, build, cfg, label, replay_args, note)
+  except Exception:  # pylint: disable=broad-except
+    import traceback
+    rec.errors.append(f"harness exception on {label} [{cfg}] {replay_args}: {traceback.format_exc(limit=5)}")
+    return "error"
+
+
 def focus_job(job):
   install_logging()
   idxs, quick = job
@@ -1014,7 +1027,7 @@ def focus_job(job):
     elif quick and len(cfgs) == len(CONFIGS) and ft.label.startswith("timing:"):
       cfgs = [cfgs[(i * 5 + 3 * k) % len(CONFIGS)] for k in range(9)]      # 9 of the 28, rotating with the feature
     for cfg in cfgs:
-      roundtrip(rec, lambda i=i, cfg=cfg: focus_doc(i, cfg), cfg, ft.label, {"feature": i, "label": ft.label, "cfg": cfg}, ft.note)
+      guarded(rec, lambda i=i, cfg=cfg: focus_doc(i, cfg), cfg, ft.label, {"feature": i, "label": ft.label, "cfg": cfg}, ft.note)
   return rec
 
 
@@ -1026,7 +1039,7 @@ def random_job(job):
     coords = (seed, scope, chunk, i)
     for k in range(ncfg):
       cfg = CONFIGS[(chunk * 7 + i * ncfg + k * 11 + SCOPE_OFFSET[scope]) % len(CONFIGS)]
-      roundtrip(rec, lambda coords=coords: random_doc(coords, exclude), cfg, "doc", {"gen": list(coords), "cfg": cfg, "exclude": sorted(exclude)})
+      guarded(rec, lambda coords=coords: random_doc(coords, exclude), cfg, "doc", {"gen": list(coords), "cfg": cfg, "exclude": sorted(exclude)})
   return rec
 
 
@@ -1069,7 +1082,7 @@ def main():
   failing = sorted({k.split("/")[0] for k in rec.failures if not k.startswith(("doc/", "colour/", "time-expression"))})
   rec.scope["focused_features_failing_on_their_own"] = len(failing)
   # phase 2: random documents without those features
-  per = 32 if quick else 200
+  per = 32 if quick else 160
   ncfg = 2 if quick else 4
   jobs = [("random", (args.seed, scope, ch, per, ncfg, tuple(failing))) for scope in SCOPES for ch in range(4 if quick else 16)]
   for part in parallel(_dispatch, jobs):
